@@ -118,14 +118,23 @@ def _evaluate(case, td):
     total = 0
     prev = math.inf
     by_pos = {(ch, pos): (mt, lp) for ch, pos, mt, lp in flat}
+    by_iter = {}
+    if case["ent"].get("thin") is not None:
+        for ch, pos, mt, lp in flat:
+            by_iter.setdefault((ch, max(0, pos - 1) * case["ent"]["thin"]), []).append((mt, lp))
     row_key = {}
     for i, r in enumerate(rows):
         if r["topology_id"] != "t_%d" % i:
             raise Violation("report/ids", "row %d has id %r" % (i, r["topology_id"]), tags)
         ptr = (int(r["chain_num"]), int(r["iter"]))
-        if ptr not in by_pos:
+        # the pointer is read as the entry's position in its chain's trace (what the commands use) or, failing that, as a
+        # recorded iteration number; either way it has to lead to an entry of the row's tree that attains the row's score
+        cands = ([by_pos[ptr]] if ptr in by_pos else []) + by_iter.get(ptr, [])
+        if not cands:
             raise Violation("report/pointer", "row %d points to chain %d entry %d which does not exist" % (i, ptr[0], ptr[1]), tags)
-        mt, lp = by_pos[ptr]
+        score0 = float(r["log_p_joint_max"])
+        good = [c for c in cands if abs(c[1] - score0) <= 1e-9 * max(1, abs(score0)) and c[0].key() not in seen]
+        mt, lp = good[0] if good else cands[0]
         key = mt.key()
         if key in seen:
             raise Violation("report/rows", "two rows point to the same tree %r" % (mt,), tags)
